@@ -37,10 +37,18 @@ def snapshot_module_globals():
     _base["modglobals"] = snap
 
 
-def _restore_module_globals():
+def restore_module_globals(exclude=("exo.core.proc_eqv",)):
+    """Mid-session variant used as an oracle baseline: forget every lazily created module-level
+    singleton / memo table of exo (except the equivalence tracker's, which is session state)."""
+    _restore_module_globals(exclude)
+
+
+def _restore_module_globals(exclude=()):
     import sys as _sys
 
     for mname, d in _base.get("modglobals", {}).items():
+        if mname in exclude:
+            continue
         mod = _sys.modules.get(mname)
         if mod is None:
             continue
